@@ -5,6 +5,7 @@ mod c03;
 mod c04;
 mod c07;
 mod c09;
+mod c10;
 mod c11;
 mod c12;
 mod c13;
@@ -44,6 +45,7 @@ fn main() {
         "C07" => c07::run("C07"),
         "C08" => c07::run("C08"),
         "C09" => c09::run(),
+        "C10" => c10::run(),
         "C11" => c11::run(),
         "C12" => c12::run(),
         "C13" => c13::run(),
